@@ -481,10 +481,172 @@ Theorem udh_decode esm codec ref total seq body :
       decode_message esm codec (udh_concat16 ref total seq ++ body) = (do t <- codec_decode codec body; Ok (t, sar_of ref total seq))).
 Proof.
   intros Hesm. assert (0 <? (esm / 64) mod 2 = true) as Hb by (apply Z.ltb_lt; exact Hesm).
-  split; intros Hr; unfold decode_message; rewrite Hb; cbn [andb app udh_concat8 udh_concat16].
-  - unfold unpackB, unpackH. cbn [skipn rbind]. change (0 =? IE_ID_16BIT) with false. cbv iota. cbn [skipn rbind].
-    change (Z.to_nat (5 + 1)) with 6%nat. cbn [skipn]. reflexivity.
-  - unfold unpackB, unpackH. cbn [skipn rbind]. change (8 =? IE_ID_16BIT) with true. cbv iota. cbn [skipn rbind].
-    change (Z.to_nat (6 + 1)) with 7%nat. cbn [skipn].
-    replace (ref / 256 * 256 + ref mod 256) with ref by lia. reflexivity.
+  split; intros Hr; unfold decode_message; rewrite Hb; cbn [andb app udh_concat8 udh_concat16 length].
+  - unfold unpackB at 1. cbn [skipn rbind]. change (Z.to_nat (5 + 1)) with 6%nat.
+    cbn [scan_ies Nat.ltb Nat.leb]. unfold unpackB, unpackH. cbn [skipn rbind Nat.add].
+    change (0 =? IE_ID_16BIT) with false. change (0 =? IE_ID_8BIT) with true. change (3 =? 3) with true. cbn [andb]. cbv iota. cbn [rbind].
+    change (1 + 2 + Z.to_nat 3)%nat with 6%nat. destruct (length body); cbn [scan_ies Nat.ltb Nat.leb rbind skipn]; reflexivity.
+  - unfold unpackB at 1. cbn [skipn rbind]. change (Z.to_nat (6 + 1)) with 7%nat.
+    cbn [scan_ies Nat.ltb Nat.leb]. unfold unpackB, unpackH. cbn [skipn rbind Nat.add].
+    change (8 =? IE_ID_16BIT) with true. change (4 =? 4) with true. cbn [andb]. cbv iota. cbn [rbind].
+    change (1 + 2 + Z.to_nat 4)%nat with 7%nat. replace (ref / 256 * 256 + ref mod 256) with ref by lia.
+    destruct (length body); cbn [scan_ies Nat.ltb Nat.leb rbind skipn]; reflexivity.
+Qed.
+
+(* ---------- the general User Data Header: information elements in any order ---------- *)
+Lemma skipn_app_exact {A} (pre l : list A) : skipn (length pre) (pre ++ l) = l.
+Proof. induction pre as [|x t IH]; [reflexivity|exact IH]. Qed.
+
+Lemma enc_ies_app a b : enc_ies (a ++ b) = enc_ies a ++ enc_ies b.
+Proof. unfold enc_ies. apply flat_map_app. Qed.
+
+Lemma enc_ie_length e : length (enc_ie e) = (2 + length (snd e))%nat.
+Proof. unfold enc_ie. cbn [length]. reflexivity. Qed.
+
+(* one iteration of the loop over an element that is not a concatenation element: skipped *)
+Lemma scan_skip_one f pre e rest end_ acc :
+  other_ie e -> (length pre < end_)%nat ->
+  scan_ies (S f) (pre ++ enc_ie e ++ rest) (length pre) end_ acc
+  = scan_ies f (pre ++ enc_ie e ++ rest) (length pre + length (enc_ie e)) end_ acc.
+Proof.
+  intros (H16 & H8 & Hlen) Hlt. cbn [scan_ies]. apply Nat.ltb_lt in Hlt. rewrite Hlt.
+  unfold enc_ie. cbn [app].
+  destruct (unpackB_at (pre ++ fst e :: Z.of_nat (length (snd e)) :: snd e ++ rest) (length pre) _ _ (skipn_app_exact pre _)) as [-> K].
+  cbn [rbind]. destruct (unpackB_at _ _ _ _ K) as [-> _]. cbn [rbind].
+  assert ((fst e =? IE_ID_16BIT) && (Z.of_nat (length (snd e)) =? 4) = false) as ->.
+  { apply andb_false_iff. destruct (Z.eqb_spec (fst e) IE_ID_16BIT) as [E|E]; [|left; reflexivity]. right. apply Z.eqb_neq. intros E2.
+    apply H16. split; [exact E|lia]. }
+  assert ((fst e =? IE_ID_8BIT) && (Z.of_nat (length (snd e)) =? 3) = false) as ->.
+  { apply andb_false_iff. destruct (Z.eqb_spec (fst e) IE_ID_8BIT) as [E|E]; [|left; reflexivity]. right. apply Z.eqb_neq. intros E2.
+    apply H8. split; [exact E|lia]. }
+  cbn [rbind]. rewrite Nat2Z.id. cbn [length]. f_equal. lia.
+Qed.
+
+(* a run of such elements is skipped *)
+Lemma scan_skip_many : forall l f pre rest end_ acc,
+  Forall other_ie l -> (length pre + length (enc_ies l) <= end_)%nat ->
+  scan_ies (length l + f) (pre ++ enc_ies l ++ rest) (length pre) end_ acc
+  = scan_ies f (pre ++ enc_ies l ++ rest) (length pre + length (enc_ies l)) end_ acc.
+Proof.
+  induction l as [|e t IH]; intros f pre rest end_ acc Hall Hle.
+  - cbn [enc_ies flat_map length app Nat.add]. rewrite Nat.add_0_r. reflexivity.
+  - inversion_clear Hall as [|? ? He Ht]. change (enc_ies (e :: t)) with (enc_ie e ++ enc_ies t) in *.
+    rewrite app_length, enc_ie_length in Hle. cbn [length Nat.add].
+    rewrite <- app_assoc. rewrite (scan_skip_one _ pre e (enc_ies t ++ rest) end_ acc He ltac:(lia)).
+    replace (pre ++ enc_ie e ++ enc_ies t ++ rest) with ((pre ++ enc_ie e) ++ enc_ies t ++ rest) by (rewrite <- app_assoc; reflexivity).
+    replace (length pre + length (enc_ie e))%nat with (length (pre ++ enc_ie e)) by (rewrite app_length; reflexivity).
+    rewrite (IH f (pre ++ enc_ie e) rest end_ acc Ht); [|rewrite app_length, enc_ie_length; lia].
+    rewrite !app_length, enc_ie_length. f_equal. lia.
+Qed.
+
+(* a header without a concatenation element - e.g. application port addressing only - yields the text and NO segmentation
+   parameters: the message is not taken for a segment *)
+Theorem udh_without_concatenation esm codec ies body :
+  0 < (esm / 64) mod 2 -> Forall other_ie ies ->
+  decode_message esm codec (udh_of ies ++ body) = (do t <- codec_decode codec body; Ok (t, [])).
+Proof.
+  intros Hesm Hall. assert (0 <? (esm / 64) mod 2 = true) as Hb by (apply Z.ltb_lt; exact Hesm).
+  unfold decode_message, udh_of. rewrite Hb. cbn [andb app]. unfold unpackB at 1. cbn [skipn rbind].
+  replace (Z.to_nat (Z.of_nat (length (enc_ies ies)) + 1)) with (S (length (enc_ies ies))) by lia.
+  set (u := Z.of_nat (length (enc_ies ies))).
+  change (u :: enc_ies ies ++ body) with ([u] ++ enc_ies ies ++ body).
+  assert (exists f, length ([u] ++ enc_ies ies ++ body) = (length ies + S f)%nat) as [f Ef].
+  { exists (length (enc_ies ies) + length body - length ies)%nat. rewrite !app_length. cbn [length].
+    assert (length ies <= length (enc_ies ies))%nat.
+    { clear. induction ies as [|e t IH]; [cbn; lia|]. change (enc_ies (e :: t)) with (enc_ie e ++ enc_ies t). rewrite app_length, enc_ie_length. cbn [length]. lia. }
+    lia. }
+  rewrite Ef. change 1%nat with (length [u]) at 1.
+  rewrite (scan_skip_many ies (S f) [u] body (S (length (enc_ies ies))) None Hall ltac:(cbn [length]; lia)).
+  cbn [scan_ies length]. replace (1 + length (enc_ies ies) <? S (length (enc_ies ies)))%nat with false by (symmetry; apply Nat.ltb_ge; lia).
+  cbn [rbind]. replace (S (length (enc_ies ies))) with (length ([u] ++ enc_ies ies)) by (rewrite app_length; reflexivity).
+  rewrite app_assoc, skipn_app_exact. reflexivity.
+Qed.
+
+(* one iteration over a concatenation element records it *)
+Lemma scan_concat8 f pre ref total seq rest end_ acc :
+  (length pre < end_)%nat ->
+  scan_ies (S f) (pre ++ enc_ie (concat_ie8 ref total seq) ++ rest) (length pre) end_ acc
+  = scan_ies f (pre ++ enc_ie (concat_ie8 ref total seq) ++ rest) (length pre + 5) end_ (Some (ref, total, seq)).
+Proof.
+  intros Hlt. cbn [scan_ies]. apply Nat.ltb_lt in Hlt. rewrite Hlt. unfold enc_ie, concat_ie8. cbn [fst snd].
+  change (Z.of_nat (length [ref; total; seq])) with 3. cbn [app].
+  destruct (unpackB_at (pre ++ 0 :: 3 :: ref :: total :: seq :: rest) (length pre) _ _ (skipn_app_exact pre _)) as [-> K1]. cbn [rbind].
+  destruct (unpackB_at _ _ _ _ K1) as [-> K2]. cbn [rbind].
+  change (0 =? IE_ID_16BIT) with false. change (0 =? IE_ID_8BIT) with true. change (3 =? 3) with true. cbn [andb].
+  replace (length pre + 2)%nat with (S (S (length pre))) by lia. destruct (unpackB_at _ _ _ _ K2) as [-> K3]. cbn [rbind].
+  replace (length pre + 3)%nat with (S (S (S (length pre)))) by lia. destruct (unpackB_at _ _ _ _ K3) as [-> K4]. cbn [rbind].
+  replace (length pre + 4)%nat with (S (S (S (S (length pre))))) by lia. destruct (unpackB_at _ _ _ _ K4) as [-> _]. cbn [rbind].
+  f_equal. change (Z.to_nat 3) with 3%nat. lia.
+Qed.
+
+Lemma scan_concat16 f pre ref total seq rest end_ acc :
+  (length pre < end_)%nat -> 0 <= ref <= 65535 ->
+  scan_ies (S f) (pre ++ enc_ie (concat_ie16 ref total seq) ++ rest) (length pre) end_ acc
+  = scan_ies f (pre ++ enc_ie (concat_ie16 ref total seq) ++ rest) (length pre + 6) end_ (Some (ref, total, seq)).
+Proof.
+  intros Hlt Hr. cbn [scan_ies]. apply Nat.ltb_lt in Hlt. rewrite Hlt. unfold enc_ie, concat_ie16. cbn [fst snd].
+  change (Z.of_nat (length [ref / 256; ref mod 256; total; seq])) with 4. cbn [app].
+  destruct (unpackB_at (pre ++ 8 :: 4 :: ref / 256 :: ref mod 256 :: total :: seq :: rest) (length pre) _ _ (skipn_app_exact pre _)) as [-> K1]. cbn [rbind].
+  destruct (unpackB_at _ _ _ _ K1) as [-> K2]. cbn [rbind].
+  change (8 =? IE_ID_16BIT) with true. change (4 =? 4) with true. cbn [andb].
+  replace (length pre + 2)%nat with (S (S (length pre))) by lia.
+  unfold unpackH. rewrite K2. cbn [rbind].
+  assert (skipn (length pre + 4) (pre ++ 8 :: 4 :: ref / 256 :: ref mod 256 :: total :: seq :: rest) = total :: seq :: rest) as K4.
+  { replace (length pre + 4)%nat with (length (pre ++ [8; 4; ref / 256; ref mod 256])) by (rewrite app_length; reflexivity).
+    replace (pre ++ 8 :: 4 :: ref / 256 :: ref mod 256 :: total :: seq :: rest) with ((pre ++ [8; 4; ref / 256; ref mod 256]) ++ total :: seq :: rest)
+      by (rewrite <- app_assoc; reflexivity). apply skipn_app_exact. }
+  destruct (unpackB_at _ _ _ _ K4) as [-> K5]. cbn [rbind].
+  replace (length pre + 5)%nat with (S (length pre + 4)) by lia. destruct (unpackB_at _ _ _ _ K5) as [-> _]. cbn [rbind].
+  replace (ref / 256 * 256 + ref mod 256) with ref by lia.
+  f_equal. change (Z.to_nat 4) with 4%nat. lia.
+Qed.
+
+(* the concatenation element is found wherever it stands among the other elements of the header *)
+Theorem udh_concatenation_anywhere esm codec pre post ref total seq body (wide : bool) :
+  0 < (esm / 64) mod 2 -> Forall other_ie pre -> Forall other_ie post -> 0 <= ref <= (if wide then 65535 else 255) ->
+  decode_message esm codec (udh_of (pre ++ [if wide then concat_ie16 ref total seq else concat_ie8 ref total seq] ++ post) ++ body)
+  = (do t <- codec_decode codec body; Ok (t, sar_of ref total seq)).
+Proof.
+  intros Hesm Hpre Hpost Hr. assert (0 <? (esm / 64) mod 2 = true) as Hb by (apply Z.ltb_lt; exact Hesm).
+  set (ce := if wide then concat_ie16 ref total seq else concat_ie8 ref total seq).
+  unfold decode_message, udh_of. rewrite Hb. cbn [andb app]. unfold unpackB at 1. cbn [skipn rbind].
+  set (ies := enc_ies (pre ++ ce :: post)).
+  replace (Z.to_nat (Z.of_nat (length ies) + 1)) with (S (length ies)) by lia.
+  set (u := Z.of_nat (length ies)).
+  assert (ies = enc_ies pre ++ enc_ie ce ++ enc_ies post) as Eies.
+  { unfold ies. rewrite enc_ies_app. change (enc_ies (ce :: post)) with (enc_ie ce ++ enc_ies post). reflexivity. }
+  assert (length (enc_ie ce) = (if wide then 6 else 5)%nat) as Lce by (unfold ce; destruct wide; reflexivity).
+  assert (forall l, (length l <= length (enc_ies l))%nat) as Hlen.
+  { induction l as [|e t IH]; [cbn; lia|]. change (enc_ies (e :: t)) with (enc_ie e ++ enc_ies t). rewrite app_length, enc_ie_length. cbn [length]. lia. }
+  assert (exists f, length (u :: ies ++ body) = (length pre + S (length post + S f))%nat) as [f Ef].
+  { exists (length ies + length body - length pre - length post - 1)%nat. cbn [length]. rewrite app_length, Eies, !app_length, Lce.
+    pose proof (Hlen pre). pose proof (Hlen post). destruct wide; lia. }
+  rewrite Ef.
+  assert (length ies = length (enc_ies pre) + length (enc_ie ce) + length (enc_ies post))%nat as Lies by (rewrite Eies, !app_length; lia).
+  replace (u :: ies ++ body) with ([u] ++ enc_ies pre ++ (enc_ie ce ++ enc_ies post ++ body))
+    by (rewrite Eies, <- !app_assoc; reflexivity).
+  pose proof (scan_skip_many pre (S (length post + S f)) [u] (enc_ie ce ++ enc_ies post ++ body) (S (length ies)) None Hpre ltac:(cbn [length]; lia)) as Hskip.
+  cbn [length] in Hskip. rewrite Hskip. clear Hskip.
+  change (1 + length (enc_ies pre))%nat with (length [u] + length (enc_ies pre))%nat.
+  replace ([u] ++ enc_ies pre ++ enc_ie ce ++ enc_ies post ++ body) with (([u] ++ enc_ies pre) ++ enc_ie ce ++ (enc_ies post ++ body))
+    by (rewrite <- !app_assoc; reflexivity).
+  replace (length [u] + length (enc_ies pre))%nat with (length ([u] ++ enc_ies pre)) by (rewrite app_length; reflexivity).
+  assert (scan_ies (S (length post + S f)) (([u] ++ enc_ies pre) ++ enc_ie ce ++ enc_ies post ++ body) (length ([u] ++ enc_ies pre)) (S (length ies)) None
+          = scan_ies (length post + S f) (([u] ++ enc_ies pre) ++ enc_ie ce ++ enc_ies post ++ body)
+                     (length ([u] ++ enc_ies pre) + length (enc_ie ce)) (S (length ies)) (Some (ref, total, seq))) as ->.
+  { rewrite Lce. unfold ce. destruct wide.
+    - apply scan_concat16; [rewrite app_length; cbn [length]; lia|exact Hr].
+    - apply scan_concat8. rewrite app_length. cbn [length]. lia. }
+  replace (([u] ++ enc_ies pre) ++ enc_ie ce ++ enc_ies post ++ body) with ((([u] ++ enc_ies pre) ++ enc_ie ce) ++ enc_ies post ++ body)
+    by (rewrite <- !app_assoc; reflexivity).
+  replace (length ([u] ++ enc_ies pre) + length (enc_ie ce))%nat with (length (([u] ++ enc_ies pre) ++ enc_ie ce)) by (rewrite !app_length; reflexivity).
+  assert (length (([u] ++ enc_ies pre) ++ enc_ie ce) + length (enc_ies post) <= S (length ies))%nat as Hle2
+    by (rewrite !app_length; cbn [length]; lia).
+  rewrite (scan_skip_many post (S f) (([u] ++ enc_ies pre) ++ enc_ie ce) body (S (length ies)) (Some (ref, total, seq)) Hpost Hle2).
+  cbn [scan_ies].
+  replace (length (([u] ++ enc_ies pre) ++ enc_ie ce) + length (enc_ies post) <? S (length ies))%nat with false
+    by (symmetry; apply Nat.ltb_ge; rewrite !app_length; cbn [length]; lia).
+  cbn [rbind].
+  replace (S (length ies)) with (length ((([u] ++ enc_ies pre) ++ enc_ie ce) ++ enc_ies post)) by (rewrite !app_length; cbn [length]; lia).
+  rewrite app_assoc, skipn_app_exact. reflexivity.
 Qed.
